@@ -104,6 +104,18 @@ def check_saved_aux(w, msg, snap):
             js = ex.setdefault("java", [])
             if len(js) < 3 and java_supported(t):
                 js.append({"type": tbl["type"], "hex": data.hex(), "want": want})
+        if _has_unordered(t) and tbl["state"] in ("read", "mutated", "retyped", "retyped_read") and tbl.get("type0") and _skeleton(t) == _skeleton(R.parse_type(tbl["type0"])):
+            # (only where the current value is known to come from DECODING under a type with the same
+            # container skeleton, i.e. holds real Python sets / dicts: a caller may assign a list that
+            # repeats an element to a set-typed table, and that is written as given)
+            # element ORDER of sets / mappings is free, their number is not: an encoder working from
+            # the current value (a Python set / dict) cannot list a member twice, so the length of
+            # the encoding is fixed - bytes loaded from a non-canonical file and written back after a
+            # type_name change are longer
+            ref = R.encode(want, t)
+            if len(data) != len(ref):
+                stale = tbl["raw"] is not None and data == tbl["raw"]
+                w.violate(("C14", "C08") if stale else ("C08", "C14"), "c14:stale_bytes" if stale else "c08:noncanonical", "%s.aux_data[%r] (%s, %s): %d bytes written, the encoding of the current value has %d%s" % (cl, name, tbl["type"], tbl["state"], len(data), len(ref), " (the loaded bytes were written back)" if stale else ""))
         if not _has_unordered(t):
             ref = R.encode(want, t)
             if data != ref and not _f32_nan(t):
@@ -113,6 +125,10 @@ def check_saved_aux(w, msg, snap):
         for name in nodes[cl].a["aux"]:
             if (cl, name) not in seen:
                 w.violate(("C14", "C01"), "c14:lost_table", "%s.aux_data[%r] is missing from the written message" % (cl, name))
+
+
+def _skeleton(t):
+    return (t[0] if t[1] else "_", [_skeleton(x) for x in t[1]])
 
 
 def _has_unordered(t):
@@ -755,6 +771,10 @@ def gen_aux(w, r, allow_unknown=False):
         return op
     if x < 0.95:
         t = R.parse_type(tbl["type"])
+        if ("Addr" in tbl["type"] or "uint64_t" in tbl["type"]) and r.random() < 0.5:
+            # another NAME for the same encoding (Addr and uint64_t share a codec)
+            swapped = tbl["type"].replace("Addr", "\0").replace("uint64_t", "Addr").replace("\0", "uint64_t")
+            return {"op": "aux_retype", "c": c, "name": name, "type": swapped}
         wt = widen_some_leaf(r, t)
         if wt is not None and r.random() < 0.7:
             return {"op": "aux_retype", "c": c, "name": name, "type": R.type_str(wt)}
